@@ -167,10 +167,24 @@ def dict_del(eng, st, ref, kt):
     st.set_dom(r, z3.Store(d, kt, False))
 
 
+CKIND = z3.Function("container_kind", sym.IntS, sym.IntS)
+_KIND_CODE = {"dict": 1, "set": 2, "list": 3}
+
+
+def assume_kind(st, w):
+    """well-typedness of the heap, stated per reference: an object is a dict, a set, a list or a class instance - never two of them
+    (so a list read from one place and a dict read from another are different objects)"""
+    if isinstance(w, SRef):
+        code = _KIND_CODE.get(w.ty.kind, 4 if w.ty.kind == "class" else None)
+        if code is not None:
+            st.assume(CKIND(w.t) == code)
+
+
 def wrap_elem(eng, st, t, ty):
     w = sym.from_val(t, ty, eng.reg)
     if isinstance(w, SRef):
         st.assume(z3.And(w.t >= 0, w.t < st.heap.next_ref))
+        assume_kind(st, w)
     return w
 
 
